@@ -68,6 +68,21 @@ pub(super) fn move_while_borrowed(
 
         let mut directly_borrowed = IndexSet::new();
         let mut captured = IndexSet::new();
+        // `match`ing on a `Result` hands its payload over to one of the two variants:
+        // the variant keeps borrowing whatever the `Result` borrows, if its type can hold on
+        // to a reference.
+        let inherits_captures = match node {
+            CallGraphNode::MatchBranching => true,
+            CallGraphNode::Compute { .. } => matches!(
+                node.as_hydrated_component(component_db, computation_db).map(|c| c.computation()),
+                Some(Computation::MatchResult(m)) if m
+                    .output
+                    .lifetime_parameters()
+                    .iter()
+                    .any(|l| l != &crate::language::Lifetime::Static)
+            ),
+            CallGraphNode::InputParameter { .. } => false,
+        };
         if let Some(hydrated_component) = node.as_hydrated_component(component_db, computation_db)
             && let Computation::Callable(callable) = hydrated_component.computation()
         {
@@ -115,6 +130,17 @@ pub(super) fn move_while_borrowed(
 
         'inner: for edge_id in dependency_edge_ids {
             let dependency_index = call_graph.edge_endpoints(edge_id).unwrap().0;
+            if inherits_captures {
+                let inherited = node2captured_nodes
+                    .get(&dependency_index)
+                    .cloned()
+                    .unwrap_or_default();
+                node2captured_nodes
+                    .entry(node_index)
+                    .or_default()
+                    .extend(inherited);
+                continue 'inner;
+            }
             let dependency_node = &call_graph[dependency_index];
             let dependency_type = match dependency_node {
                 CallGraphNode::Compute { component_id, .. } => {
